@@ -244,6 +244,64 @@ func c08(r *Report) {
 		r.Decide("flow", "*http2.SettingsFrame: every setting is forwarded", okAll, "each setting is appended unconditionally and the list is written", "some settings are filtered out or the forwarded list is not the collected one", pf.Pos())
 	})
 
+	r.Guard("C08.R2", "the default processor hands every call to the relay of the other direction with the stream and all of its arguments", func() {
+		// relayAdapter is the end of every processor chain (and the whole chain when no processor is
+		// configured): each of its Processor methods must, on every path, call a method of its relay
+		// with its own stream ID and every one of its parameters
+		ad := w.Named("h2", "relayAdapter")
+		if ad == nil {
+			r.Undecided("M/h2.relayAdapter", "UNRESOLVED")
+			return
+		}
+		for _, mn := range []string{"Data", "Header", "Priority", "RSTStream", "PushPromise"} {
+			fn := w.method(ad, mn)
+			if fn == nil || fn.Blocks == nil {
+				r.Undecided("M/h2.relayAdapter."+mn, "UNRESOLVED")
+				continue
+			}
+			r.Touch(fn)
+			fwd := func(i ssa.Instruction) bool {
+				c, ok := i.(ssa.CallInstruction)
+				if !ok {
+					return false
+				}
+				callee := c.Common().StaticCallee()
+				if callee == nil || callee.Signature.Recv() == nil || !strings.HasSuffix(callee.Signature.Recv().Type().String(), "h2.relay") {
+					return false
+				}
+				args := c.Common().Args
+				// receiver is a load of the adapter's relay field, the stream ID a load of its id field
+				hasID := false
+				for _, a := range args[1:] {
+					if ld, isLd := a.(*ssa.UnOp); isLd {
+						if fa, isFa := ld.X.(*ssa.FieldAddr); isFa && fieldObj(fa).Name() == "id" && isParamVal(fa.X, fn.Params[0]) {
+							hasID = true
+						}
+					}
+				}
+				if !hasID {
+					return false
+				}
+				for _, p := range fn.Params[1:] {
+					found := false
+					for _, a := range args[1:] {
+						if isParamVal(a, p) {
+							found = true
+						}
+					}
+					if !found {
+						return false
+					}
+				}
+				return true
+			}
+			g := G(fn)
+			p := g.PathTo([]ssa.Instruction{g.Entry()}, true, fwd, isReturn)
+			r.Sites++
+			r.Decide("path", "(*M/h2.relayAdapter)."+mn+" forwards to the relay on every path", p == nil, "a relay method receives r.id and every parameter on every path to the return", "the adapter can return without handing the call (with its stream ID and all of its arguments) to the relay: with no processor configured this part of the stream - a priority, a reset code, a data chunk - never reaches the other endpoint", fn.Pos())
+		}
+	})
+
 	r.Guard("C08.R2", "a header block is assembled from exactly its own fragments and decoded once, when it is complete", func() {
 		g := G(pf)
 		// the END_HEADERS state a block is dominated by: +1 ended, -1 not ended, 0 unknown
@@ -818,7 +876,28 @@ func c08(r *Report) {
 						writesRest = true
 					}
 				}
-				okW = advanced && counted && goesOn && writesRest
+				// the other form: the loop runs while the re-sliced remainder is non-empty
+				lenLoop := false
+				for _, in := range instrs(fp) {
+					x, isB := in.(*ssa.BinOp)
+					if !isB || !inLoop(x.Block()) {
+						continue
+					}
+					if _, isIf := x.Block().Instrs[len(x.Block().Instrs)-1].(*ssa.If); !isIf {
+						continue
+					}
+					lc, isC := unwrapConv(x.X).(*ssa.Call)
+					k, isK := constInt(x.Y)
+					if !isC || !isK {
+						continue
+					}
+					if bi, isBi := lc.Call.Value.(*ssa.Builtin); isBi && bi.Name() == "len" {
+						if _, isPhi := lc.Call.Args[0].(*ssa.Phi); isPhi && cmpHolds(x.Op, 1, k) && cmpHolds(x.Op, 24, k) && !cmpHolds(x.Op, 0, k) {
+							lenLoop = true
+						}
+					}
+				}
+				okW = advanced && writesRest && (counted && goesOn || lenLoop)
 				why = fmt.Sprintf("advanced=%v counted=%v continues-while-octets-remain=%v writes-the-rest=%v", advanced, counted, goesOn, writesRest)
 			}
 			r.Decide("flow", "M/h2.forwardPreface: the whole preface is written, also across short writes", okW, "a single checked Write, or a loop that re-slices by n, counts down by n and continues while anything remains", "the write loop of the preface stops early or does not advance ("+why+"): after a short write the server receives a damaged connection preface", fp.Pos())
